@@ -2,23 +2,32 @@
 import subprocess
 
 TRUSTED = [
-    "specification: lean/RelicVerif/Spec/HashToCurve.lean (RFC 9380 hash_to_field / sgn0 / simplified SWU with the exceptional case / "
+    "specification (prime curves): lean/RelicVerif/Spec/HashToCurve.lean (RFC 9380 hash_to_field / sgn0 / simplified SWU with the exceptional case / "
     "Shallue-van de Woestijne with c1..c4 defined from Z / iso_map / clear_cofactor / hash_to_curve = map(u0) + map(u1); SwiftEC in its X/Y "
     "form; try-and-increment), executed by the compiled Lean driver with expand_message_xmd of Spec/Mac.lean (C14) over SHA-256",
-    "model: lean/RelicVerif/Model/EpMap.lean mirrors TMPL_MAP_SSWU, TMPL_MAP_SVDW, EP_MAP_APPLY_MAP, TMPL_MAP_HORNER/ISOGENY_MAP, the a = 0 branch of "
-    "ep_map_swift_impl and fp_srt's choice of root; proved equal to the specification for every field element (Props/C13.lean) under the "
-    "conditions on the constants that the driver evaluates on every context line (Z non-square, g(B/(ZA)) square, c-constants satisfy their "
-    "defining equations, ...); the constants themselves are READ from the running library (ep_map_param)",
+    "model (prime curves): lean/RelicVerif/Model/EpMap.lean mirrors TMPL_MAP_SSWU, TMPL_MAP_SVDW, EP_MAP_APPLY_MAP, TMPL_MAP_HORNER/ISOGENY_MAP, the "
+    "a = 0 branch of ep_map_swift_impl and fp_srt's choice of root; proved equal to the specification for every field element (Props/C13.lean) "
+    "under the conditions on the constants that the driver evaluates on every context line (Z non-square, g(B/(ZA)) square, c-constants "
+    "satisfy their defining equations, ...); the constants themselves are READ from the running library (ep_map_param)",
+    "binary curves (eb_map, NIST_B283 / NIST_K283) and Edwards (ed_map, ed_map_dst, ed_map_ell2_5mod8 on CURVE_ED25519): specification only "
+    "(Spec/HashToCurveBin.lean: private GF(2)[z]/f arithmetic, trace, half-trace, affine binary group law; Spec/HashToCurveEd.lean: RFC 9380 "
+    "Elligator 2, Montgomery->Edwards map, affine twisted Edwards law); the C code of these maps is class C (compared with the specification "
+    "on the presented lines only, no model); irreducibility of the reduction polynomial and the Edwards/binary group laws of the library are "
+    "C16 / C17 / C18",
+    "NOT COVERED: curves over extension fields (ep2_map*, ep3/ep4/ep8_map): no specification of the quadratic tower, of the twist "
+    "endomorphism and of the Frobenius-based cofactor clearing in this slice; the b = 0 branch of ep_map_swift_impl (no curve with b = 0 is "
+    "selectable in the configurations used); binary and Edwards parameter sets other than those of the base / p255 builds",
     "class C (compared with the specification on the presented lines only): the byte-level plumbing of the entry points (which bytes of the "
-    "uniform string become which field element, DST of each entry point: \"RELIC\" for ep_map_basic, \"RELIC\\0\" (sizeof) for ep_map_sswum and "
-    "ep_map_swift), the group law / ep_norm / ep_mul_cof used after the maps (C03), fp_smb / fp_srt / fp_inv (C02), md_xmd (C14)",
-    "class C: 'one of the three SvdW / SwiftEC candidates is a square' is used as a hypothesis of the on-curve theorems (the branch-wise statement "
-    "is proved; the existence is evaluated on every presented line: the driver recomputes y^2 = g(x) on the specification's own output)",
+    "uniform string become which field element, DST of each entry point: \"RELIC\" for ep_map_basic / ed_map, \"RELIC\\0\" (sizeof) for "
+    "ep_map_sswum and ep_map_swift), the group law / ep_norm / ep_mul_cof used after the maps (C03), fp_smb / fp_srt / fp_inv (C02), md_xmd (C14), "
+    "'the isogeny maps points of the isogenous curve to points of the curve' (evaluated on every presented point)",
     "membership in the prime-order subgroup is evaluated per line (n*P = O with the affine reference arithmetic); as a theorem it is "
     "r*(h*P) = O in any group of exponent h*r, i.e. modulo the group-order fact of C18",
     "determinism: specification and model are pure functions of the bytes; on the implementation side every operation is executed twice per "
     "line (different result-object contents, scribbled stack, advanced DRBG) and selected lines are repeated later in the stream and after a "
     "change of curve",
+    "known findings C13-1 (SSWU Z on SM2_P256 / CURVE_25519) and C13-2 (SwiftEC exceptional parameters) are matched by predicate and reported as "
+    "KNOWN-FINDING; the specification is not weakened for them",
 ]
 ASSUMPTIONS = [
     "the curve's group has order h*n with n prime (C18); n*G = O and the generator being on the curve are evaluated on every context line",
@@ -27,6 +36,8 @@ RULE = ("messages of length 0, 1, 31, 32, 33, 55, 56, 63, 64, 65, 127, 128, 129,
         "by name (ep_map, ep_map_basic, ep_map_sswum, ep_map_swift); uniform strings for ep_map_rnd in the three builds EP_MAP = SSWUM / BASIC / SWIFT "
         "that reduce to u = 0, +-1, p-1, the roots of Z^2u^4+Zu^2 (SSWU) resp. of (1-u^2 g(Z))(1+u^2 g(Z)) (SvdW), SwiftEC parameters with u = 0, t = 0, "
         "u^3+b+t^2 = 0, representatives >= p before reduction, u0 = u1 and u0 = -u1, too short / too long strings; each curve of the configuration; "
+        "eb_map on both binary curves, ed_map / ed_map_dst (DST lengths 0, 1, 5, 16, 254, 255, 256, 300) / ed_map_ell2_5mod8 (u = 0, +-1, values sent to "
+        "the exceptional points of the Montgomery->Edwards map, representatives >= p) with the same message lengths; "
         "non-trivial = distinct line whose result is a point other than the identity")
 
 USES_GENERATED = False
